@@ -196,6 +196,36 @@ def dump_instance(args):
             for q in qc:
                 d = code.get_deformation(q, dname, **kwargs)
                 rec['deform_dicts'].append([d.get('X'), d.get('Y'), d.get('Z'), len(d)])
+        # same instance obtained from an object whose cached properties were all read BEFORE deform
+        if dname is not None:
+            c2 = klass(*size)
+            for prop in ('qubit_index', 'stabilizer_index', 'stabilizer_matrix', 'logicals_x', 'logicals_z', 'k', 'd',
+                         'x_indices', 'z_indices', 'is_css', 'Hx', 'Hz', 'stabilizer_types'):
+                try:
+                    getattr(c2, prop)
+                except ValueError:
+                    pass
+            c2.deform(dname, **kwargs)
+            diff = []
+            H2 = c2.stabilizer_matrix.tocsr()
+            if (H2 != Hc).nnz != 0 or H2.shape != Hc.shape:
+                diff.append('stabilizer_matrix')
+            if not np.array_equal(c2.logicals_x, code.logicals_x):
+                diff.append('logicals_x')
+            if not np.array_equal(c2.logicals_z, code.logicals_z):
+                diff.append('logicals_z')
+            if [bool(b) for b in c2.x_indices] != rec['x_indices']:
+                diff.append('x_indices')
+            if [bool(b) for b in c2.z_indices] != rec['z_indices']:
+                diff.append('z_indices')
+            if bool(c2.is_css) != rec['is_css']:
+                diff.append('is_css')
+            if int(c2.d) != rec['d'] or int(c2.k) != rec['k']:
+                diff.append('d/k')
+            if rec['is_css'] and bool(c2.is_css):
+                if (c2.Hx != code.Hx).nnz != 0 or (c2.Hz != code.Hz).nnz != 0:
+                    diff.append('Hx/Hz')
+            rec['used_then_deformed_diff'] = diff
         # measure_syndrome on each single-qubit X and Z (ties bs_prod/measure_syndrome to H)
         # kept small: only for n <= 40
         if n <= 40:
@@ -205,6 +235,22 @@ def dump_instance(args):
                 e[j] = 1
                 syn.append([int(i) for i in np.nonzero(code.measure_syndrome(e))[0]])
             rec['unit_syndromes'] = syn
+        # coordinate-dict <-> BSF round trips through the implementation's to_bsf / from_bsf (C02)
+        if n <= 120:
+            import random as _random
+            rr = _random.Random(tag)
+            rts = []
+            for t in range(4):
+                supp = rr.sample(range(n), rr.randint(1, min(n, 5)))
+                op = {qc[q]: rr.choice('XYZ') for q in supp}
+                v = code.to_bsf(dict(op))
+                back = code.from_bsf(np.array(v))
+                rts.append({'op': op_to_list(op, qindex), 'bsf': dense_row(v, n),
+                            'back': [[list(loc), pp] for loc, pp in back.items()]})
+            for i in rr.sample(range(Hc.shape[0]), min(Hc.shape[0], 3)):
+                back = code.from_bsf(Hc[i])
+                rts.append({'row': i, 'bsf': rows[i], 'back': [[list(loc), pp] for loc, pp in back.items()]})
+            rec['roundtrips'] = rts
         rec['ok'] = True
     except Exception as ex:  # construction failure is itself an observation
         import traceback
